@@ -208,6 +208,13 @@ def scenarios(tier, seed):
         sp = rnd.sample(pools[j % 2 == 0], 3)
         S.append(Scenario(f'dict/{j}', DICT_SRC, {'n1': 'count', 'n2': 'count', 'n3': 'count'}, consts={'s1': sp[0], 's2': sp[1], 's3': sp[2], 'natural': j % 2 == 0},
                           preamble=PRE, what=f'substance from a dictionary {sp}', samples=1))
+    for j, nat in enumerate((True, False)):
+        # the documented short symbols D = H{2} and T = H{3}, with and without a charge suffix
+        S.append(Scenario(f'dict/hydrogen-isotopes/{j}', DICT_SRC, {'n1': 'count', 'n2': 'count', 'n3': 'count'}, consts={'s1': 'D{+}', 's2': 'T{-}', 's3': 'D', 'natural': nat},
+                          preamble=PRE, what='substance from a dictionary of D{+}, T{-}, D', samples=1))
+        S.append(Scenario(f'formula/hydrogen-isotopes/{j}', SUB_SRC, {'n1': 'count', 'n2': 'count'},
+                          consts={'tree': [('sp', 'D{+}', 'n1'), ('grp', [('sp', 'O{-2}', None), ('sp', 'T{+}', 'n2')], None), ('sp', 'T', None)], 'style': j, 'natural': nat}, preamble=PRE,
+                          what='formula with charged D and T', samples=1))
     S.append(Scenario('canary/count', SUB_SRC.replace('O.eq(s.components[k].proportion, cnt)', 'O.eq(s.components[k].proportion, cnt + 1)'), {'n1': 'count', 'n2': 'count'},
                       consts={'tree': [('sp', 'Ca', None), ('grp', [('sp', 'O', None), ('sp', 'H', 'n1')], 'n2')], 'style': 0, 'natural': True}, preamble=PRE, canary=True))
     S.append(Scenario('canary/sum', SUB_SRC.replace("tot['Z'] + cnt * Z", "tot['Z'] + cnt * Z * 1.001"), {'n1': 'count', 'n2': 'count'},
